@@ -1,6 +1,7 @@
 package world
 
 import (
+	"encoding/base64"
 	"fmt"
 	"net/url"
 	"runtime/debug"
@@ -23,6 +24,8 @@ type Driver struct {
 
 	flows   map[string]*pendingFlow
 	lastLoc map[string]string
+	// overlapping is set while a twin step runs two requests at once
+	overlapping bool
 }
 
 // RunPlan executes a plan. It must be called inside a synctest bubble, with the
@@ -73,7 +76,11 @@ func RunPlan(p *Plan, dir string, keepTrace bool) (res *Result) {
 	d := &Driver{W: w, P: p, Res: res}
 	d.O = NewOracle(w, res)
 	d.lastLoc = map[string]string{}
+	var oracleMu sync.Mutex
 	w.OnExchange = func(e *Exchange) {
+		oracleMu.Lock()
+		defer oracleMu.Unlock()
+		e.Overlap = d.overlapping
 		if loc := e.RespHdr.Get("Location"); loc != "" {
 			if base, err := url.Parse(w.Scheme() + "://" + e.Host + e.Target); err == nil {
 				if ref, err := url.Parse(loc); err == nil {
@@ -131,13 +138,23 @@ func (d *Driver) reqOf(st *Step) Req {
 	for i, h := range st.Headers {
 		hdrs[i] = [2]string{h[0], d.subst(b, h[1])}
 	}
-	r := Req{Method: st.Method, URL: d.scheme(st) + "://" + host + "/", RawTarget: target, HostHdr: st.HostHdr, Headers: hdrs, Body: []byte(d.subst(b, st.Body)),
+	r := Req{Method: st.Method, URL: d.scheme(st) + "://" + host + "/", RawTarget: target, HostHdr: st.HostHdr, Headers: hdrs, Body: PlanBytes(d.subst(b, st.Body)),
 		NoJar: st.NoJar, CookieHdr: d.subst(b, st.CookieHdr), Chunked: st.Chunked, NoStore: st.NoStore}
 	if u, err := url.Parse(d.scheme(st) + "://" + host + target); err == nil && strings.HasPrefix(target, "/") {
 		r.URL = u.String()
 		r.RawTarget = target
 	}
 	return r
+}
+
+// PlanBytes decodes a plan string that may carry raw bytes ("b64:" prefix), which JSON cannot.
+func PlanBytes(s string) []byte {
+	if strings.HasPrefix(s, "b64:") {
+		if b, err := base64.StdEncoding.DecodeString(s[4:]); err == nil {
+			return b
+		}
+	}
+	return []byte(s)
 }
 
 func (d *Driver) idpHost() string {
@@ -160,9 +177,13 @@ func (d *Driver) exec(st *Step) {
 			follow = 14
 		}
 		b.Navigate(d.reqOf(st), follow)
-	case "get":
+	case "get", "authreq":
 		if st.Twin != nil {
 			d.twin(st)
+			return
+		}
+		if st.Op == "authreq" {
+			d.execExtra(st, b)
 			return
 		}
 		b.snapshot()
@@ -177,6 +198,17 @@ func (d *Driver) exec(st *Step) {
 		switch st.Sub {
 		case "revoke":
 			w.IdP.RevokeUserTokens(st.User)
+		case "revoke-browser":
+			// the IdP revokes the one grant this browser's session carries (another device of the same user stays signed in)
+			name, cipher := ProxyCookieName, w.ProxyCipher
+			if st.Name == "auth" {
+				name, cipher = w.AuthCookieName(), w.AuthCipher
+			}
+			if c := b.Cookie(name); c != nil {
+				if s, err := sessions.UnmarshalSession(c.Value, cipher); err == nil {
+					w.IdP.RevokeGrant(s.RefreshToken)
+				}
+			}
 		case "disable":
 			w.IdP.SetDisabled(st.User, true)
 		case "enable":
@@ -189,6 +221,10 @@ func (d *Driver) exec(st *Step) {
 			w.IdP.SetVerified(st.User, true)
 		case "adduser":
 			w.IdP.AddUser(st.User, true, st.Groups...)
+		case "deletegroup":
+			w.IdP.DeleteGroup(st.Name, true)
+		case "restoregroup":
+			w.IdP.DeleteGroup(st.Name, false)
 		}
 	case "l2":
 		switch {
@@ -245,20 +281,50 @@ func (d *Driver) exec(st *Step) {
 	}
 }
 
-// twin issues two requests that overlap in virtual time: the first at t, the second Dur later.
+// twin issues two requests that overlap in virtual time: the first one's back-channel call is held
+// up for 100 ms on the link named by st.Name (default proxy>authenticator), the second request is
+// issued Dur (default 50 ms) later by another browser.
 func (d *Driver) twin(st *Step) {
+	link := "proxy>" + AuthHost
+	kind := simnet.FaultDelay
+	if st.Op == "authreq" {
+		link = "auth>" + map[string]string{"okta": OktaHost, "google": GoogleAPI}[d.P.Cfg.Provider]
+	}
+	if st.Sub == "slow-upstream-dial" {
+		// the first request is signed and then waits to connect to its backend while the second one runs
+		link, kind = "proxy-up>"+st.Name, simnet.FaultSlowDial
+	}
+	d.W.Net.Arm(link, simnet.Fault{Kind: kind, Count: 1, Dur: 100 * time.Millisecond})
+	gap := st.Dur
+	if gap == 0 {
+		gap = 50 * time.Millisecond
+	}
+	d.overlapping = true
+	d.Res.probe("twin_overlap")
+	one := func(s *Step) {
+		b := d.W.Browser(s.B)
+		if s.Op == "authreq" {
+			d.authReq(s, b)
+			return
+		}
+		b.Do(d.reqOf(s))
+	}
 	var wg sync.WaitGroup
 	wg.Add(2)
+	first := *st
+	first.Twin = nil
 	go func() {
 		defer wg.Done()
-		d.W.Browser(st.B).Do(d.reqOf(st))
+		one(&first)
 	}()
 	go func() {
 		defer wg.Done()
-		time.Sleep(st.Dur)
-		d.W.Browser(st.Twin.B).Do(d.reqOf(st.Twin))
+		time.Sleep(gap)
+		one(st.Twin)
 	}()
 	wg.Wait()
+	d.overlapping = false
+	d.W.Net.Disarm(link)
 }
 
 const b64urlAlphabet = "ABCDEFGHIJKLMNOPQRSTUVWXYZabcdefghijklmnopqrstuvwxyz0123456789-_"
